@@ -876,7 +876,7 @@ impl Prop for Prims {
     }
     fn streams(&self) -> Vec<Stream> {
         match self.0 {
-            Which::Distance => vec![Stream::new("exhaustive", 341, 1555), Stream::new("random", 24000, 720000).miri(8)],
+            Which::Distance => vec![Stream::new("exhaustive", 341, 1555), Stream::new("random", 24000, 720000).miri(8), Stream::new("session", 16, 96)],
             Which::Jaccard => vec![Stream::new("exhaustive", 341, 1365), Stream::new("random", 32000, 1600000).miri(8)],
             Which::Index => vec![Stream::new("stores", 6400, 320000), Stream::new("corpus", 96, 2880), Stream::new("long", 320, 16000), Stream::new("session", 16, 160), Stream::new("sparse", 16, 160)],
             Which::Unchecked => vec![Stream::new("direct", 24000, 1200000).asan(24000).miri(12), Stream::new("store", 6400, 320000).asan(6400).miri(6)],
@@ -884,7 +884,7 @@ impl Prop for Prims {
     }
     fn floors(&self) -> Vec<(&'static str, u64, u64)> {
         match self.0 {
-            Which::Distance => vec![("exhaustive pairs", 100000, 2000000), ("prefix cells compared", 1000000, 20000000), ("pairs where a discount lowered the distance", 10000, 100000), ("random pairs beyond capacity 20", 500, 5000), ("long pairs with sampled prefix cells", 200, 2000), ("random cases with per-position character classes", 2000, 20000), ("re-classed repeat calls", 10000, 100000), ("random cases over an alphabet of 41-110 symbols", 3000, 30000), ("calls with one word held fixed while the other grows", 20000, 200000), ("hook matrix growths", 3, 3), ("hook matrix max size", 50, 50)],
+            Which::Distance => vec![("exhaustive pairs", 100000, 2000000), ("prefix cells compared", 1000000, 20000000), ("pairs where a discount lowered the distance", 10000, 100000), ("random pairs beyond capacity 20", 500, 5000), ("long pairs with sampled prefix cells", 200, 2000), ("random cases with per-position character classes", 2000, 20000), ("re-classed repeat calls", 10000, 100000), ("random cases over an alphabet of 41-110 symbols", 3000, 30000), ("calls with one word held fixed while the other grows", 20000, 200000), ("session calls on one instance", 1000000, 6000000), ("most calls on one instance max ", 131072, 131072), ("hook matrix growths", 3, 3), ("hook matrix max size", 50, 50)],
             Which::Jaccard => vec![("exhaustive pairs", 100000, 1500000), ("pairs with partial overlap", 20000, 200000), ("pairs beyond the initial capacity of 20", 500, 5000), ("random cases over a wide alphabet", 1000, 10000), ("hook jaccard accesses", 100000, 1000000)],
             Which::Index => vec![("prepare calls", 5000, 50000), ("capped calls", 500, 5000), ("calls with ties at the cut", 100, 1000), ("size 0", 300, 3000), ("corpus prepare calls", 200, 2000), ("stores of 1023-5000 records", 50, 500), ("queries with more than 255 distinct grams", 300, 15000), ("calls at the boundary between 'all listed' and 'capped'", 300, 15000), ("session calls on one index", 1000000, 10000000), ("most calls on one index max ", 131000, 131000), ("sessions past 2^17 calls", 2, 20), ("calls with a query without words", 300, 3000), ("sparse indexes of 65 000 - 330 000 records", 16, 160), ("stores of words with letters above U+FFFF and their 16-bit look-alikes", 300, 3000)],
             Which::Unchecked => vec![("direct distance/similarity calls", 20000, 200000), ("direct calls beyond capacity 20", 5000, 50000), ("store-level searches", 5000, 50000), ("store-level rounds with 127-1500 records", 200, 2000), ("store-level rounds with clear and re-add", 500, 5000), ("type-ahead sequences with adds in between", 1000, 10000), ("direct call sequences with words of 76-420 letters", 200, 2000), ("direct call sequences with arithmetic length relations", 300, 3000), ("store-level queries of 65-200 words", 300, 3000), ("searches on a surviving store after a neighbour store was dropped", 3000, 30000), ("stores filled on one thread and searched on another", 500, 5000), ("direct calls whose arguments share their buffers", 5000, 50000), ("jaccard calls on sets of 256-70000 distinct elements", 20, 200), ("hook matrix accesses", 1000000, 10000000), ("hook matrix growths", 3, 3), ("hook matrix max size", 50, 50), ("hook counter accesses", 10000, 100000), ("hook cost accesses", 100000, 1000000), ("hook jaccard accesses", 10000, 100000)],
@@ -920,6 +920,7 @@ impl Prop for Prims {
                         }
                         a
                     }
+                    2 => cv("aeiob\0cdf19xж"),
                     _ => cv("aeiobcdf19xж"),
                 };
                 // half of the cases run their whole call history on an instance of their own, so that
@@ -992,8 +993,60 @@ impl Prop for Prims {
                 private::FREE_CLASSES.with(|f| f.set(None));
             }
             #[cfg(lucid_suggest_verif)]
+            (Which::Distance, "session") => {
+                // one instance answering more than 2^16 (sometimes 2^17) calls over a small alphabet; a few letters occur
+                // in the very first calls only and come back exactly 65 536 calls later - per-call tags, epochs and
+                // lazily cleared tables that wrap after many calls would show as a difference from a fresh instance
+                let inst = DamerauLevenshtein::new();
+                let rare = cv("cqyz");
+                let common = cv("abx1e");
+                let first = cx.rng.below(3);
+                let two = idx % 4 == 1;
+                let total = if two { 131_072 + first + 6 } else { 65_536 + first + 6 };
+                let mut judged = 0u64;
+                for k in 0..total {
+                    let base = if k >= 65_536 { k - 65_536 } else { k };
+                    let base = if base >= 65_536 { base - 65_536 } else { base };
+                    let special = base >= first && base < first + 3;
+                    let (c1, c2): (Vec<char>, Vec<char>) = if special && k < 65_536 {
+                        // the rare letters in the first word, once
+                        let w: Vec<char> = (0..3).map(|_| *cx.rng.pick(&rare)).collect();
+                        (w.clone(), w)
+                    } else if special {
+                        // 65 536 (131 072) calls later: the rare letters in the second word only
+                        let a: Vec<char> = (0..3).map(|_| *cx.rng.pick(&common)).collect();
+                        let mut b = a.clone();
+                        b.remove(0);
+                        b.push(*cx.rng.pick(&rare));
+                        (a, b)
+                    } else {
+                        let n1 = cx.rng.range(1, 4);
+                        let n2 = cx.rng.range(1, 4);
+                        ((0..n1).map(|_| *cx.rng.pick(&common)).collect(), (0..n2).map(|_| *cx.rng.pick(&common)).collect())
+                    };
+                    let (t1, t2) = (classed(&c1), classed(&c2));
+                    if special || k % 8192 == 0 {
+                        cx.ctx(format!("C16 session call #{} {:?} {:?}", k + 1, s(&c1), s(&c2)));
+                    }
+                    let got = inst.distance(&t1.view(0), &t2.view(0));
+                    if special || k % 17 == 0 || k + 8 >= total {
+                        let want = DamerauLevenshtein::new().distance(&t1.view(0), &t2.view(0));
+                        judged += 1;
+                        if got != want {
+                            cx.fail_sig("distance-law", "distance-law:depends-on-history".into(), json!({"word1": s(&c1), "word2": s(&c2), "distance": got, "fresh_instance": want,
+                                "history": format!("call #{} on one instance: the letters {:?} occurred in the first words of calls #{}-#{} only, every other call used {:?}", k + 1, s(&rare), first + 1, first + 3, s(&common))}));
+                            return;
+                        }
+                    }
+                }
+                cx.evals_n(judged);
+                cx.count_n("session calls on one instance", total as u64);
+                cx.count_max("most calls on one instance max ", total as u64);
+                cx.key(hparts(&["session", &idx.to_string(), &first.to_string()]));
+            }
+            #[cfg(lucid_suggest_verif)]
             (Which::Jaccard, "exhaustive") => {
-                let alpha = cv("abcd");
+                let alpha = cv("abc\0");
                 let words = all_words(&alpha, if cx.tier == Tier::Thorough { 5 } else { 4 });
                 let w1 = &words[idx as usize % words.len()];
                 for w2 in &words {
@@ -1016,6 +1069,9 @@ impl Prop for Prims {
                     a.extend((0..8u32).filter_map(|k| std::char::from_u32(0x161 + k * 0x100)));
                     cx.count("random cases over a wide alphabet");
                     a
+                } else if cx.rng.chance(1, 3) {
+                    // U+0000 (the library's own fill value) is a character like any other
+                    cv("\0abcdefghijklmnopqrstuvwxyzäöüßё")
                 } else {
                     cv("abcdefghijklmnopqrstuvwxyzäöüßё")
                 };
